@@ -485,7 +485,13 @@ class MessageAccumulator:
                 continue
             leader = self._cluster.leader_for_partition(tp)
             if leader is None or leader == -1:
-                if self._batches[tp][0].expired():
+                head = self._batches[tp][0]
+                # A batch that was already sent with a sequence number can only
+                # be retried: dropping it would leave a gap in the sequence
+                sent_with_sequence = (
+                    self._txn_manager is not None and head.retry_count > 0
+                )
+                if head.expired() and not sent_with_sequence:
                     # batch is for partition is expired and still no leader,
                     # so set exception for batch and pop it
                     batch = self._pop_batch(tp, expired=True)
